@@ -110,7 +110,7 @@ func newExplorer(sc Scenario) *Explorer {
 	if sc.EarlyWindow == 0 {
 		sc.EarlyWindow = 2 * time.Second
 	}
-	return &Explorer{EarlyWindow: int64(sc.EarlyWindow), Name: sc.Name, Delay: sc.Delay, UseMemo: sc.Memo, MaxSteps: sc.MaxSteps, Horizon: h, Body: sc.Body, Post: sc.Post}
+	return &Explorer{SelectFairness: 3, EarlyWindow: int64(sc.EarlyWindow), Name: sc.Name, Delay: sc.Delay, UseMemo: sc.Memo, MaxSteps: sc.MaxSteps, Horizon: h, Body: sc.Body, Post: sc.Post}
 }
 
 func runScenario(sc Scenario, deadline time.Time, si, sn int) scenarioReport {
